@@ -4,7 +4,7 @@
    schema.ParseWithSpecialTableName / getOrParse; a state is reachable by ANY list of goroutine
    ids (any interleaving), for any number of goroutines, any programs of Parse calls and any
    relation graph [cfg] (acyclic or cyclic, with or without malformed relations). *)
-From Verif Require Import Base C07_Model C07_Proofs C07_Proofs4 C07_Proofs5 C07_Proofs6.
+From Verif Require Import Base C07_Model C07_Proofs C07_Proofs4 C07_Proofs5 C07_Proofs6 C07_Proofs7.
 
 (* Every return of a public Parse(T) happens after close(initialized) of the schema it returns;
    that schema is of type T and, unless it carries an error, all relations of T are installed. *)
@@ -37,6 +37,16 @@ Theorem c07_no_deadlock : forall cfg progs sched st,
   all_finished st = true \/ some_enabled cfg st = true.
 Proof. intros. eapply no_deadlock. eapply reach_inv; eauto. Qed.
 Print Assumptions c07_no_deadlock.
+
+(* a run that cannot be extended is complete: given that parsing terminates (runs are finite),
+   every goroutine gets every answer *)
+Theorem c07_maximal_run_complete : forall cfg progs sched st,
+  run cfg (initial progs) sched = Some st -> some_enabled cfg st = false -> all_finished st = true.
+Proof.
+  intros cfg progs sched st H Hn. destruct (no_deadlock cfg st (reach_inv cfg _ _ _ H)) as [F|E]; [exact F|].
+  rewrite E in Hn. discriminate.
+Qed.
+Print Assumptions c07_maximal_run_complete.
 
 (* The same three facts from a warm cache. *)
 Theorem c07_warm_invariant : forall cfg progs sched st,
@@ -88,6 +98,16 @@ Proof.
   exact (hazard_unrelated cfg sched (initial progs) st (inv_initial cfg progs) Hn eq_refl H).
 Qed.
 Print Assumptions c07_no_hazard_unrelated_partial.
+
+(* ... and a cold cache: once every configured type is parsed (warm), no goroutine ever guesses a
+   relation again, for any number of goroutines *)
+Theorem c07_no_hazard_warm_partial : forall cfg progs sched st,
+  run cfg (warm cfg progs) sched = Some st -> hazard st = false.
+Proof.
+  intros cfg progs sched st H.
+  exact (hazard_warm cfg sched (warm cfg progs) st (inv_warm cfg progs) (W_warm cfg progs) eq_refl H).
+Qed.
+Print Assumptions c07_no_hazard_warm_partial.
 
 (* non-vacuity: the cyclic graph A<->B<->C, two goroutines, a complete run *)
 Example c07_instance :
